@@ -25,7 +25,7 @@ pub fn run(ctx: &Ctx, replay_file: Option<String>) -> ! {
          from the RefDual reference read back by name in a shuffled order with an absent name, (iii) the same \
          program with the float literal promoted to a variable-free Dual. Programs leaving the differentiable or \
          well-conditioned domain are skipped and counted. The reference rules themselves are validated against \
-         central finite differences of the plain program for all programs of <= 2 operators. Deep formulas: nine chains of 10 .. 60 operators (Horner scheme, continued fraction, exp/log tower, cdf / inverse-cdf ping-pong, power chain, 24-term sum of products, Black-Scholes price, balanced tree of 32 leaves, sign chain), every intermediate stage judged as a program of its own, on both leaf tables. Awkward magnitudes: the unary functions at arguments 1.2e154, 1e154, 2.5e153, 1e-120, 1e-107, 7e-155, 3e-162, 1e300, 1e-300, 4e-320 - every component whose true value is representable must be right (an intermediate product leaving the range is a defect). Many-names pass: each of the 10 unary \
+         central finite differences of the plain program for all programs of <= 2 operators. Deep formulas: nine chains of 10 .. 60 operators (Horner scheme, continued fraction, exp/log tower, cdf / inverse-cdf ping-pong, power chain, 24-term sum of products, Black-Scholes price, balanced tree of 32 leaves, sign chain), every intermediate stage judged as a program of its own, on both leaf tables. Awkward magnitudes: the unary functions at arguments 1.2e154, 1e154, 2.5e153, 1e-120, 1e-107, 7e-155, 3e-162, 1e300, 1e-300, 4e-320 - every component whose true value is representable must be right (an intermediate product leaving the range is a defect). Unusual powers: x^p for 12 (x, p) pairs incl. whole exponents of 2^31 .. 6e9 at bases next to +-1 and large odd exponents at -1. Many-names pass: each of the 10 unary \
          functions (borrowed and owned) on a number carrying 7, 8, 9, 15, 16, 17, 31, 32, 33, 63, 64, 65, 100, 130, 255, 256, 257 names stored in three orders \
          (gradient = f'(x) g by name; binary operators on such numbers are C03's). Non-trivial: >= 2 \
          operators and >= 2 distinct variable names in the result.",
